@@ -1,4 +1,13 @@
-"""Discharging obligations: z3 in-process first, /usr/bin/cvc5 on the SMT-LIB dump for what z3 leaves unknown."""
+"""Discharging obligations.
+
+Pipeline per obligation (conjunctive goals are split first):
+  1. explicit instantiation of quantified hypotheses and unfolding of defined functions at the ground terms of the
+     query (pyvc.inst), then a quantifier-free z3 check;
+  2. if that fails and the obligation names small-range split terms (exponents of 2**k, loop counters), an exhaustive
+     case split on those terms with constant folding, each leaf discharged as in 1;
+  3. otherwise the full query (quantifiers, definitions as axioms) is given to z3, then /usr/bin/cvc5.
+Only `unsat` proves; `sat` of the full query refutes; everything else is `unknown`.
+"""
 import os
 import subprocess
 import tempfile
@@ -6,36 +15,349 @@ import time
 
 import z3
 
+from . import inst
+
 CVC5 = '/usr/bin/cvc5'
+MAX_COMBOS = 40000
+
+
+class Q:
+    """a query: assumptions |- goal"""
+    __slots__ = ('assumptions', 'goal')
+
+    def __init__(self, assumptions, goal):
+        self.assumptions = tuple(assumptions)
+        self.goal = goal
+
+
+def conjuncts(g):
+    if z3.is_and(g):
+        out = []
+        for c in g.children():
+            out += conjuncts(c)
+        return out
+    return [g]
+
+
+def flatten(assumptions):
+    out = []
+    for a in assumptions:
+        out += conjuncts(a)
+    return out
+
+
+def skolemize_neg_goal(goal):
+    """not(goal) with a universally quantified goal instantiated at fresh constants"""
+    if z3.is_quantifier(goal) and goal.is_forall():
+        n = goal.num_vars()
+        consts = [z3.FreshConst(goal.var_sort(i), 'sk') for i in range(n)]
+        body = z3.substitute_vars(goal.body(), *reversed(consts))
+        return skolemize_neg_goal(body)
+    if z3.is_implies(goal):
+        # not (a -> b) == a and not b
+        return conjuncts(goal.arg(0)) + skolemize_neg_goal(goal.arg(1))
+    return [z3.Not(goal)]
+
+
+def definition_axioms():
+    ax = []
+    for name, (decl, formals, body) in inst.DEFS.items():
+        ax.append(z3.ForAll(formals, decl(*formals) == body, patterns=[decl(*formals)]))
+    return ax
+
+
+def check_qf(q, timeout_ms):
+    """instantiate, then quantifier-free check.  -> 'unsat' | 'sat' | 'unknown', model"""
+    A = flatten(q.assumptions)
+    ground = [a for a in A if not z3.is_quantifier(a)]
+    quants = [a for a in A if z3.is_quantifier(a)]
+    neg = skolemize_neg_goal(q.goal)
+    insts = [z3.simplify(fold(i_)) for i_ in inst.instantiate(quants, ground + neg)]
+    s = z3.Solver()
+    s.set('timeout', timeout_ms)
+    s.set('smt.mbqi', False)
+    for a in ground + insts + neg:
+        s.add(a)
+    r = s.check()
+    if os.environ.get('PYVC_DEBUGQF') and r != z3.unsat:
+        print('   [qf]', r, 'quants', len(quants), 'insts', len(insts), 'goal', str(q.goal)[:80].replace('\n', ' '))
+        for i_ in insts[:40]:
+            print('      inst:', str(i_)[:300].replace('\n', ' '))
+    if r == z3.unsat:
+        return 'unsat', None, bool(quants) or bool(insts)
+    if r == z3.sat:
+        return 'sat', s.model(), bool(quants) or uses_defs(ground + neg)
+    return 'unknown', None, True
+
+
+def uses_defs(es):
+    for t in inst.subterms(es):
+        if z3.is_app(t) and t.decl().name() in inst.DEFS:
+            return True
+    return False
+
+
+def solve1(q, timeout_ms=10000, use_cvc5=True, full=True):
+    t0 = time.time()
+    r, m, weakened = check_qf(q, timeout_ms)
+    if r == 'unsat':
+        return dict(status='proved', backend='z3', time=time.time() - t0)
+    if r == 'sat' and not weakened:
+        return dict(status='refuted', backend='z3', time=time.time() - t0, model=model_to_dict(m), smt_model=str(m)[:4000])
+    cand = m
+    if not full:
+        return dict(status='unknown', backend='z3', time=time.time() - t0, reason='instantiated query not unsat',
+                    candidate=str(cand)[:4000] if cand is not None else None)
+    # full query
+    s = z3.Solver()
+    s.set('timeout', timeout_ms)
+    for a in q.assumptions:
+        s.add(a)
+    for a in definition_axioms():
+        s.add(a)
+    s.add(z3.Not(q.goal))
+    r2 = s.check()
+    if r2 == z3.unsat:
+        return dict(status='proved', backend='z3', time=time.time() - t0)
+    if r2 == z3.sat:
+        m2 = s.model()
+        return dict(status='refuted', backend='z3', time=time.time() - t0, model=model_to_dict(m2), smt_model=str(m2)[:4000])
+    if use_cvc5 and os.path.exists(CVC5):
+        r3 = run_cvc5(s, max(5, timeout_ms // 1000))
+        if r3 is not None and r3['status'] == 'proved':
+            r3['time'] = time.time() - t0
+            return r3
+    return dict(status='unknown', backend='z3+cvc5' if use_cvc5 else 'z3', time=time.time() - t0,
+                reason=s.reason_unknown(), candidate=str(cand)[:4000] if cand is not None else None,
+                candidate_model=model_to_dict(cand) if cand is not None else None)
+
+
+def solve_conj(q, timeout_ms=10000, use_cvc5=True, full=True):
+    cs = conjuncts(q.goal)
+    if len(cs) == 1:
+        return solve1(q, timeout_ms, use_cvc5, full)
+    t0 = time.time()
+    backends = set()
+    worst = None
+    for c in cs:
+        r = solve1(Q(q.assumptions, c), timeout_ms, use_cvc5, full)
+        backends.add(r['backend'])
+        if r['status'] == 'refuted':
+            r['time'] = time.time() - t0
+            return r
+        if r['status'] == 'unknown':
+            worst = r
+            break
+    if worst is not None:
+        worst['time'] = time.time() - t0
+        return worst
+    return dict(status='proved', backend='+'.join(sorted(backends)), time=time.time() - t0)
+
+
+# ------------------------------------------------------------------------------------------ case splitting
+def hoist_ite(k, depth=4):
+    """k with one inner if-then-else lifted to the top: ite(c, k[then], k[else]) (recursively, bounded)"""
+    k = z3.simplify(k)
+    if depth == 0 or z3.is_int_value(k):
+        return k
+    found = None
+    for t in inst.subterms([k]):
+        if z3.is_app_of(t, z3.Z3_OP_ITE) and t.sort() == z3.IntSort():
+            found = t
+            break
+    if found is None:
+        return k
+    a = hoist_ite(z3.substitute(k, (found, found.arg(1))), depth - 1)
+    b = hoist_ite(z3.substitute(k, (found, found.arg(2))), depth - 1)
+    return z3.If(found.arg(0), a, b)
+
+
+def fold(e):
+    """constant folding after a substitution: 2**<numeral>, x & <constant mask>, x | <single bit>"""
+    cache = {}
+
+    def go(t):
+        i = t.get_id()
+        if i in cache:
+            return cache[i]
+        r = t
+        if z3.is_app(t) and t.num_args() > 0:
+            ch = [go(c) for c in t.children()]
+            nm = t.decl().name()
+            if nm == 'pow2' and t.num_args() == 1:
+                ks = hoist_ite(ch[0])
+
+                def p2(k_):
+                    if z3.is_int_value(k_) and 0 <= k_.as_long() <= 72:
+                        return z3.IntVal(2 ** k_.as_long())
+                    if z3.is_app_of(k_, z3.Z3_OP_ITE):
+                        return z3.If(k_.arg(0), p2(k_.arg(1)), p2(k_.arg(2)))
+                    return t.decl()(k_)
+                r = p2(ks)
+            elif nm in ('pdiv', 'pmod', 'pmul') and t.num_args() == 2:
+                a, b = ch[0], hoist_ite(ch[1])
+
+                def pd(b_):
+                    if z3.is_int_value(b_) and (b_.as_long() > 0 or nm == 'pmul'):
+                        return a / b_ if nm == 'pdiv' else (a % b_ if nm == 'pmod' else a * b_)
+                    if z3.is_app_of(b_, z3.Z3_OP_ITE):
+                        return z3.If(b_.arg(0), pd(b_.arg(1)), pd(b_.arg(2)))
+                    return t.decl()(a, b_)
+                r = pd(b)
+            elif nm == 'band' and t.num_args() == 2:
+                a, b = z3.simplify(ch[0]), z3.simplify(ch[1])
+                r = t.decl()(a, b)
+                for x, m in ((a, b), (b, a)):
+                    if z3.is_int_value(m):
+                        v = m.as_long()
+                        if v >= 0 and (v + 1) & v == 0:
+                            r = x % z3.IntVal(v + 1)
+                            break
+                        if v > 0 and v & (v - 1) == 0:
+                            r = ((x / z3.IntVal(v)) % 2) * z3.IntVal(v)
+                            break
+            elif nm == 'bor' and t.num_args() == 2:
+                from .builtins import Builtins
+                r = t.decl()(*ch)
+                bx = Builtins.bor_exact(None, z3.simplify(ch[0]), z3.simplify(ch[1]))
+                if bx is not None:
+                    r = bx
+            elif any(not a.eq(b) for a, b in zip(ch, t.children())):
+                r = t.decl()(*ch)
+        cache[i] = r
+        return r
+    return go(e)
+
+
+def exponent_atoms(es):
+    """integer atoms (constants / selects) occurring inside arguments of pow2(...)"""
+    atoms = {}
+    for t in inst.subterms(es):
+        if z3.is_app(t) and t.decl().name() == 'pow2':
+            for u in inst.subterms([t.arg(0)]):
+                if u.sort() == z3.IntSort() and z3.is_app(u) and not z3.is_int_value(u):
+                    k = u.decl().kind()
+                    if (k == z3.Z3_OP_UNINTERPRETED and u.num_args() == 0) or k == z3.Z3_OP_SELECT:
+                        atoms[u.get_id()] = u
+    return list(atoms.values())
+
+
+CAND_RANGES = [(-1, 7), (0, 8), (0, 9), (1, 64), (0, 72)]
+
+
+def find_range(A, t, timeout_ms):
+    for lo, hi in CAND_RANGES:
+        s = z3.Solver()
+        s.set('timeout', min(timeout_ms, 1000))
+        s.set('smt.mbqi', False)
+        for a in A:
+            if not z3.is_quantifier(a):
+                s.add(a)
+        s.add(z3.Or(t < lo, t > hi))
+        if s.check() == z3.unsat:
+            return lo, hi
+    return None
+
+
+def solve_split(q, hints, timeout_ms, use_cvc5, budget):
+    """A |- G by exhaustive case split on a small-range integer term (hinted by the contract, or an exponent of 2**k)."""
+    A = flatten(q.assumptions)
+    cands = [t for t, lo, hi in hints] + exponent_atoms(A + [q.goal])
+    hint_rng = {t.get_id(): (lo, hi) for t, lo, hi in hints}
+    present = {t.get_id() for t in inst.subterms(A + [q.goal])}
+    for t in cands:
+        if t.get_id() not in present:
+            continue
+        rng = None
+        if t.get_id() in hint_rng:
+            lo, hi = hint_rng[t.get_id()]
+            s = z3.Solver()
+            s.set('timeout', 1000)
+            for a in A:
+                if not z3.is_quantifier(a):
+                    s.add(a)
+            s.add(z3.Or(t < lo, t > hi))
+            if s.check() == z3.unsat:
+                rng = (lo, hi)
+        if rng is None:
+            rng = find_range(A, t, timeout_ms)
+        if rng is None:
+            continue
+        lo, hi = rng
+        nq = 0
+        for v in range(lo, hi + 1):
+            val = z3.IntVal(v)
+            A2 = []
+            dead = False
+            for a in A:
+                a2 = z3.simplify(fold(z3.substitute(a, (t, val))))
+                if z3.is_false(a2):
+                    dead = True
+                    break
+                if not z3.is_true(a2):
+                    A2.append(a2)
+            if dead:
+                continue
+            G2 = z3.simplify(fold(z3.substitute(q.goal, (t, val))))
+            if z3.is_true(G2):
+                continue
+            hints2 = []
+            for t3, lo3, hi3 in hints:
+                if t3.eq(t):
+                    continue
+                t4 = z3.simplify(z3.substitute(t3, (t, val)))
+                if not z3.is_int_value(t4):
+                    hints2.append((t4, lo3, hi3))
+            budget[0] -= 1
+            if budget[0] < 0:
+                return dict(status='unknown', backend='z3', reason='case-split budget exhausted')
+            r = solve_any(Q(A2, G2), hints2, timeout_ms, use_cvc5, budget)
+            nq += r.get('queries', 1)
+            if r['status'] != 'proved':
+                r['case'] = f'{t}={v} ' + r.get('case', '')
+                return r
+        return dict(status='proved', backend='z3 (case split)', queries=nq)
+    return None
+
+
+def solve_any(q, hints, timeout_ms, use_cvc5, budget):
+    quick = min(timeout_ms, 1500)
+    r = solve_conj(q, quick, False, full=False)
+    if r['status'] != 'unknown':
+        r.setdefault('queries', 1)
+        return r
+    r2 = solve_split(q, hints, timeout_ms, use_cvc5, budget)
+    if r2 is not None:
+        return r2
+    r3 = solve_conj(q, timeout_ms, use_cvc5, full=True)
+    r3.setdefault('queries', 1)
+    if r3['status'] != 'proved' and os.environ.get('PYVC_DUMP'):
+        with open(os.environ['PYVC_DUMP'], 'w') as f:
+            f.write('A:\n' + '\n'.join(str(a) for a in flatten(q.assumptions)) + '\nG:\n' + str(q.goal) + '\n')
+    return r3
 
 
 def solve(ob, timeout_ms=10000, use_cvc5=True):
     """-> dict(status= 'proved' | 'refuted' | 'unknown', backend=, time=, model=)"""
     t0 = time.time()
-    s = z3.Solver()
-    s.set('timeout', timeout_ms)
-    for a in ob.assumptions:
-        s.add(a)
-    s.add(z3.Not(ob.goal))
-    r = s.check()
-    dt = time.time() - t0
-    if r == z3.unsat:
-        return dict(status='proved', backend='z3', time=dt)
-    if r == z3.sat:
-        m = s.model()
-        return dict(status='refuted', backend='z3', time=dt, model=model_to_dict(m), smt_model=str(m)[:4000])
-    reason = s.reason_unknown()
-    if use_cvc5 and os.path.exists(CVC5):
-        r2 = run_cvc5(s, max(5, timeout_ms // 1000))
-        if r2 is not None:
-            r2['time'] = time.time() - t0
-            return r2
-    return dict(status='unknown', backend='z3+cvc5' if use_cvc5 else 'z3', time=time.time() - t0, reason=reason)
+    q = Q(ob.assumptions, ob.goal)
+    if ob.kind == 'vacuity':
+        s = z3.Solver()
+        s.set('timeout', timeout_ms)
+        for a in ob.assumptions:
+            s.add(a)
+        r = s.check()
+        st = 'refuted' if r == z3.sat else ('proved' if r == z3.unsat else 'unknown')
+        return dict(status=st, backend='z3', time=time.time() - t0)
+    r = solve_any(q, list(getattr(ob, 'splits', None) or []), timeout_ms, use_cvc5, [MAX_COMBOS])
+    r['time'] = time.time() - t0
+    if r.get('queries', 1) > 1 and r['status'] == 'proved':
+        r['backend'] = f'z3 (case split x{r["queries"]})'
+    return r
 
 
 def run_cvc5(solver, tlimit_s):
     smt = solver.to_smt2()
-    # z3 prints (declare-fun ...) fine for cvc5; strings/seq need the extended signature
     with tempfile.NamedTemporaryFile('w', suffix='.smt2', delete=False) as f:
         f.write('(set-logic ALL)\n' + smt)
         path = f.name
@@ -45,9 +367,6 @@ def run_cvc5(solver, tlimit_s):
         out = p.stdout.strip().splitlines()
         if out and out[0] == 'unsat':
             return dict(status='proved', backend='cvc5')
-        if out and out[0] == 'sat':
-            # cvc5 models are not replayed automatically; report as refuted-without-model
-            return dict(status='refuted', backend='cvc5', model={}, smt_model='(cvc5 sat)')
         return None
     except Exception:
         return None
@@ -57,6 +376,8 @@ def run_cvc5(solver, tlimit_s):
 
 def model_to_dict(m):
     out = {}
+    if m is None:
+        return out
     for d in m.decls():
         try:
             v = m[d]
